@@ -53,6 +53,8 @@ from cohdl._core._boolean import _Boolean, _BooleanLiteral
 from cohdl._core._boolean import true as cohdl_true
 from cohdl._core._array import Array
 from cohdl._core._bit_vector import BitVector
+from cohdl._core._bit import Bit
+from cohdl._core._enum import Enum, DynamicEnum
 
 from cohdl._core._collect_ast_and_scope import (
     InstantiatedFunction,
@@ -87,6 +89,35 @@ def _make_static_comparable(lhs, rhs):
         return lhs.bitvector, type(lhs_val)(rhs).bitvector
 
     return lhs, type(lhs_val)(rhs)
+
+
+def _select_is_exhaustive(arg, conditions) -> bool:
+    # True if the constant conditions of a selection
+    # cover every value the argument can take
+
+    arg_val = _type_qualifier.TypeQualifier.decay(arg)
+
+    if isinstance(arg_val, (Enum, DynamicEnum)):
+        members = type(arg_val).__members__
+
+        if not isinstance(members, list):
+            members = list(members.values())
+
+        return all(any(cond is member for cond in conditions) for member in members)
+
+    if isinstance(arg_val, _Boolean):
+        return {bool(cond) for cond in conditions} == {True, False}
+
+    if isinstance(arg_val, Bit):
+        width = 1
+    elif isinstance(arg_val, BitVector):
+        width = arg_val.width
+    else:
+        return False
+
+    binary = {str(cond) for cond in conditions}
+    binary = {cond for cond in binary if set(cond) <= {"0", "1"}}
+    return len(binary) == 2**width
 
 
 #
@@ -310,6 +341,10 @@ class PrepareAst:
                 )
                 for cond, expr in result.branches.items()
             ]
+
+            assert result.default is not None or _select_is_exhaustive(
+                result.arg, [cond for cond, _ in branches]
+            ), "select_with without default requires one branch for every possible value of the argument"
 
             return out.SelectWith(result.arg, branches, result.default)
 
